@@ -111,6 +111,7 @@ ELEMS = {
     "element_addl_items_shapes": ("f1: bool, f2: bool, ai: int", ["0 <= ai < 3"], "Element(**dict(([('items', Integer())] if f1 else []) + ([('items', [Integer(), String()])] if f2 else []) + [('additionalItems', (True, False, Integer(minimum=1))[ai])]))"),
     "array_addl_items_single": ("ai: int, u: bool", ["0 <= ai < 4"], "Array(String(), additionalItems=(True, False, Integer(minimum=1), Nothing())[ai], uniqueItems=u)"),
     "element_addl_props_shapes": ("f1: bool, f2: bool, ap: int", ["0 <= ap < 4"], "Element(**dict(([('properties', {'a': Property(Integer())})] if f1 else []) + ([('patternProperties', {'^a': String()})] if f2 else []) + [('additionalProperties', (True, False, Integer(minimum=1), Nothing())[ap])]))"),
+    "falsy_positional": ("ai: int, r: bool, n: int", ["0 <= ai < 8"], "(lambda f: (Not(f), Array(f, maxItems=n), Array([f, Integer()]), Element(properties={'x': Property(f, required=r)}, items=f, contains=f), Array(Array([])), AnyOf(f, f), Not(Array([]), default=n), Array([], additionalItems=f))[concretize_int(ai, 0, 7)])(Nothing())"),
     "nested": ("n: int, u: bool", [], "Array(AnyOf(Array(Integer(maximum=n), uniqueItems=u), Element(properties={'x': Property(Not(String(minLength=n)), required=u)})))"),
 }
 
